@@ -202,6 +202,7 @@ def run_replay(path: str, timeout: int = 120) -> tuple:
 
 
 def replay_main(path: str) -> int:
+    path = path if os.path.isabs(path) else os.path.join(ROOT, path)
     ok, out = run_replay(path)
     sys.stdout.write(out)
     return 1 if ok else 0
